@@ -414,9 +414,53 @@ func AlgProve(facts []*Term, goal *Term) (bool, string) {
 				fps = append(fps, fp)
 			}
 		}
+		// bases registered while converting later facts: fold everything once more
+		if len(pc.bases) > 0 {
+			if nd, e := pc.fold(d); e == nil {
+				d = nd
+			}
+			for i := range fps {
+				if nf, e := pc.fold(fps[i]); e == nil {
+					fps[i] = nf
+				}
+			}
+		}
 		spanFacts = fps
 		if len(fps) > 0 && pc.spanProve(d, fps) {
 			return true, fmt.Sprintf("in the linear span of %d assumed equalities", len(fps))
+		}
+		// strategy 1b: power bases that the facts make congruent are identified (a = b mod m implies
+		// a^k = b^k mod m); the goal is then re-examined
+		if len(pc.bases) >= 2 && len(fps) > 0 && len(pc.bases) <= 6 {
+			renamed := 0
+			for i := 0; i < len(pc.bases); i++ {
+				for j := i + 1; j < len(pc.bases); j++ {
+					ai, aj := pc.bases[i].atom, pc.bases[j].atom
+					diff := newPoly()
+					diff.addMono(Mono{vars: []int{ai}, exps: []*big.Int{bi(1)}}, bi(1))
+					diff.addMono(Mono{vars: []int{aj}, exps: []*big.Int{bi(1)}}, bi(-1))
+					if gm != nil {
+						diff.reduceMod(gm)
+					}
+					if !pc.spanProve(diff, fps) {
+						continue
+					}
+					d = pc.renameAtom(d, aj, ai)
+					for k := range fps {
+						fps[k] = pc.renameAtom(fps[k], aj, ai)
+					}
+					renamed++
+				}
+			}
+			if renamed > 0 {
+				if d.isZero() || pc.spanProve(d, fps) {
+					return true, fmt.Sprintf("in the linear span of %d assumed equalities after identifying %d congruent power bases", len(fps), renamed)
+				}
+				// goal-directed elimination on the renamed goal: substitute unit atoms of the facts
+				if ok := pc.elimProve(d, fps); ok {
+					return true, fmt.Sprintf("normal form 0 after identifying %d congruent power bases", renamed)
+				}
+			}
 		}
 		if os.Getenv("GOVC_DEBUG") != "" {
 			fmt.Fprintf(os.Stderr, "alg: span failed with %d fact polys; goal poly: %s\n", len(fps), pc.String(d))
@@ -634,7 +678,16 @@ func (pc *PolyCtx) registerBase(b *Poly, t *Term) (int, bool) {
 	best, sign := -1, 0
 	for k, c := range b.coef {
 		m := b.mono[k]
-		if len(m.vars) != 1 || m.exps[0].Cmp(bi(1)) != 0 || c.CmpAbs(bi(1)) != 0 {
+		if len(m.vars) != 1 || m.exps[0].Cmp(bi(1)) != 0 {
+			continue
+		}
+		sg := 0
+		switch {
+		case c.CmpAbs(bi(1)) == 0:
+			sg = c.Sign()
+		case pc.mod != nil && new(big.Int).Add(c, bi(1)).Cmp(pc.mod) == 0:
+			sg = -1 // coefficient -1 in reduced form
+		default:
 			continue
 		}
 		x := m.vars[0]
@@ -651,7 +704,7 @@ func (pc *PolyCtx) registerBase(b *Poly, t *Term) (int, bool) {
 			continue
 		}
 		if x > best {
-			best, sign = x, c.Sign()
+			best, sign = x, sg
 		}
 	}
 	if best < 0 {
@@ -699,6 +752,110 @@ func (pc *PolyCtx) fold(p *Poly) (*Poly, error) {
 		}
 	}
 	return p, nil
+}
+
+// renameAtom replaces atom `from` by atom `to` in every monomial (exponents add).
+func (pc *PolyCtx) renameAtom(p *Poly, from, to int) *Poly {
+	r := newPoly()
+	for k, c := range p.coef {
+		m := p.mono[k]
+		if m.degreeOf(from) == nil {
+			r.addMono(m, c)
+			continue
+		}
+		one := Mono{}
+		for i, v := range m.vars {
+			if v == from {
+				v = to
+			}
+			one = monoMul(one, Mono{vars: []int{v}, exps: []*big.Int{m.exps[i]}})
+		}
+		r.addMono(one, c)
+	}
+	if pc.mod != nil {
+		r.reduceMod(pc.mod)
+	}
+	return r
+}
+
+// elimProve: repeatedly use a fact polynomial with a unit-coefficient linear atom x (occurring in
+// no other monomial of that fact) to substitute x in the goal polynomial; succeeds when the goal
+// becomes 0 or falls in the span of the facts.
+func (pc *PolyCtx) elimProve(d *Poly, fps []*Poly) bool {
+	for round := 0; round < 12; round++ {
+		progress := false
+		for fi := len(fps) - 1; fi >= 0; fi-- {
+			e := fps[fi]
+			best, sign := -1, 0
+			for k, c := range e.coef {
+				m := e.mono[k]
+				if len(m.vars) != 1 || m.exps[0].Cmp(bi(1)) != 0 {
+					continue
+				}
+				sg := 0
+				switch {
+				case c.CmpAbs(bi(1)) == 0:
+					sg = c.Sign()
+				case pc.mod != nil && new(big.Int).Add(c, bi(1)).Cmp(pc.mod) == 0:
+					sg = -1
+				default:
+					continue
+				}
+				x := m.vars[0]
+				cnt := 0
+				for _, m2 := range e.mono {
+					if m2.degreeOf(x) != nil {
+						cnt++
+					}
+				}
+				if cnt != 1 || d.hasVar(x) == false {
+					continue
+				}
+				if x > best {
+					best, sign = x, sg
+				}
+			}
+			if best < 0 {
+				continue
+			}
+			q := newPoly()
+			for k, c := range e.coef {
+				m := e.mono[k]
+				if len(m.vars) == 1 && m.vars[0] == best && m.exps[0].Cmp(bi(1)) == 0 {
+					continue
+				}
+				q.addMono(m, new(big.Int).Mul(c, bi(int64(-sign))))
+			}
+			nd, err := pc.substPoly(d, best, q)
+			if err != nil {
+				continue
+			}
+			if pc.mod != nil {
+				nd.reduceMod(pc.mod)
+			}
+			d = nd
+			progress = true
+			if d.isZero() {
+				return true
+			}
+			if len(d.coef) <= 600 && pc.spanProve(d, fps) {
+				return true
+			}
+		}
+		if !progress {
+			break
+		}
+	}
+	return false
+}
+
+func (p *Poly) hasVar(x int) bool {
+	for _, m := range p.mono {
+		if m.degreeOf(x) != nil {
+			return true
+		}
+	}
+	return false
 }
 
 func (pc *PolyCtx) substPoly(p *Poly, x int, q *Poly) (*Poly, error) {
